@@ -43,7 +43,7 @@ ObsCombine == IsComb =>
          Abs2(((FX - R.value) \div 1000) * (Mean \div 1000) - (R.observed \div 1000) * Len(R.chance) * 1000)
              <= 2000 * Len(R.chance) + Abs2(FX - R.value) \div 500 + Mean \div 500
 ObsLeOne == IsComb => R.value <= FX
-ObsRefused == R.kind = "refuse" => R.raised = "TypeError"
+ObsRefused == R.kind = "refuse" => R.raised # "none"      \* refused = the call raises (the statement fixes no exception class)
 
 Init == tid \in 1..Len(Recs)
 Next == UNCHANGED tid
